@@ -174,7 +174,7 @@ def with_helpers(prog, crate_name, anchor_re):
     amods = set(module(f.path) for f in anchors)
 
     def is_helper(g):
-        return g.kind == 'fn' and not rx.search(g.path) and not g.raw.get('pub') and module(g.path) in amods and not (g.mac and g.mac.startswith('derive('))
+        return g.kind in ('fn', 'method') and not rx.search(g.path) and not g.raw.get('pub') and module(g.path) in amods and not (g.mac and g.mac.startswith('derive('))
     # callers of each helper
     callers = {}
     for f in c.fns:
